@@ -18,7 +18,9 @@
    UnsupportedTargetError is raised only for a single target; MuteWhenNone is about normal returns. *)
 EXTENDS Naturals, Sequences, FiniteSets, TLC
 
-CONSTANTS MaxLen,      \* longest target list
+CONSTANTS Intervals,   \* `interval` option values, in microseconds
+          Cycles,      \* how long one round over the target list takes, in microseconds
+          MaxLen,      \* longest target list
           MaxIter,     \* iterations 1..MaxIter
           MaxOps       \* calls per session
 
@@ -32,7 +34,9 @@ VARIABLES target,      \* clf.target: "none" | "remote" | "local"
           nops
 vars == <<target, field, last, nops>>
 
-NoOp == [op |-> "", kinds |-> <<>>, iters |-> 0, res |-> "", idx |-> 0, sent |-> "", had |-> "none"]
+NoOp == [op |-> "", kinds |-> <<>>, iters |-> 0, res |-> "", idx |-> 0, sent |-> "", had |-> "none",
+         interval |-> 0, cycle |-> 0, pauses |-> <<>>]
+Max0(x, y) == IF x > y THEN x - y ELSE 0           \* max(0, x - y) on naturals
 
 Init == target = "none" /\ field = FALSE /\ last = NoOp /\ nops = 0
 
@@ -51,10 +55,15 @@ SenseRes(ks) ==
            [] ks[j] = "ioerror" -> [res |-> "IOError", idx |-> 0]
            [] ks[j] = "unsupported" -> [res |-> "UnsupportedTargetError", idx |-> 0]
 
-Sense(ks, it) ==
+\* iv: the `interval` option, cy: the time one round over the list takes.  Between two rounds sense() sleeps
+\* max(0, interval - elapsed); a round that finds a target or raises ends the call, so pauses only occur when
+\* nothing is found (every round is the same: the field does not change during a call)
+Sense(ks, it, iv, cy) ==
     /\ nops < MaxOps
     /\ LET r == SenseRes(ks) IN
-       /\ last' = [op |-> "sense", kinds |-> ks, iters |-> it, res |-> r.res, idx |-> r.idx, sent |-> "", had |-> target]
+       /\ last' = [op |-> "sense", kinds |-> ks, iters |-> it, res |-> r.res, idx |-> r.idx, sent |-> "", had |-> target,
+                   interval |-> iv, cycle |-> cy,
+                   pauses |-> IF r.res = "none" THEN [i \in 1..(it - 1) |-> Max0(iv, cy)] ELSE <<>>]
        /\ target' = IF r.res = "found" THEN "remote" ELSE "none"      \* forgotten first, set only when found
        /\ field' = CASE r.res = "found" -> TRUE
                      [] r.res = "none" -> FALSE                       \* muted after every round
@@ -68,7 +77,7 @@ ListenRes(k) == CASE k = "found" -> "found" [] k = "none" -> "none" [] k = "unsu
 Listen(k) ==
     /\ nops < MaxOps
     /\ last' = [op |-> "listen", kinds |-> <<k>>, iters |-> 0, res |-> ListenRes(k), idx |-> 0,
-                sent |-> "", had |-> target]
+                sent |-> "", had |-> target, interval |-> 0, cycle |-> 0, pauses |-> <<>>]
     /\ target' = IF k = "found" THEN "local" ELSE "none"
     /\ field' = FALSE
     /\ nops' = nops + 1
@@ -77,11 +86,11 @@ SentFor(t) == CASE t = "remote" -> "cmd" [] t = "local" -> "rsp" [] OTHER -> "no
 Exchange ==
     /\ nops < MaxOps
     /\ last' = [op |-> "exchange", kinds |-> <<>>, iters |-> 0, res |-> IF target = "none" THEN "none" ELSE "data",
-                idx |-> 0, sent |-> SentFor(target), had |-> target]
+                idx |-> 0, sent |-> SentFor(target), had |-> target, interval |-> 0, cycle |-> 0, pauses |-> <<>>]
     /\ UNCHANGED <<target, field>>
     /\ nops' = nops + 1
 
-Next == \/ \E ks \in Lists, it \in 1..MaxIter : Sense(ks, it)
+Next == \/ \E ks \in Lists, it \in 1..MaxIter, iv \in Intervals, cy \in Cycles : Sense(ks, it, iv, cy)
         \/ \E k \in ListenKinds : Listen(k)
         \/ Exchange
 Spec == Init /\ [][Next]_vars
@@ -107,6 +116,12 @@ RaisesP(x) ==
       /\ x.res \in {"found", "none", "UnsupportedTargetError", "ValueError", "IOError"}
       /\ x.res = "ValueError" => \E i \in DOMAIN x.kinds : x.kinds[i] = "invalid"
       /\ x.res = "IOError" => \E i \in DOMAIN x.kinds : x.kinds[i] = "ioerror"
+\* every pause between two rounds is >= 0 (time.sleep() rejects a negative value) and rounds are spaced by
+\* max(interval, time of a round); `iterations` rounds are made when nothing is found
+PausesP(x) ==
+    IsSense(x) =>
+      /\ \A i \in DOMAIN x.pauses : x.pauses[i] >= 0 /\ x.pauses[i] + x.cycle = (IF x.interval > x.cycle THEN x.interval ELSE x.cycle)
+      /\ Len(x.pauses) = (IF x.res = "none" /\ x.iters >= 1 THEN x.iters - 1 ELSE 0)
 \* nothing found: the field is off when sense() returns None
 MuteWhenNoneP(x, f) == (IsSense(x) /\ x.res = "none") => ~f
 \* clf.target is exactly what the LAST sense / listen found, never a target of an earlier call - in particular
@@ -123,6 +138,7 @@ FirstFound == FirstFoundP(last)
 UnsupportedIgnored == UnsupportedIgnoredP(last)
 Raises == RaisesP(last)
 MuteWhenNone == MuteWhenNoneP(last, field)
+Pauses == PausesP(last)
 TargetFresh == TargetFreshP(last, target)
 ExchangeOk == ExchangeP(last, target)
 
@@ -133,6 +149,8 @@ W_IgnoredUnsupported == ~(IsSense(last) /\ last.res = "none" /\ Len(last.kinds) 
 W_StaleDropped == ~(last.op = "exchange" /\ last.sent = "nothing" /\ nops = 3)
 W_ValueError == ~(IsSense(last) /\ last.res = "ValueError" /\ Len(last.kinds) > 1)
 W_NoneMuted == ~(IsSense(last) /\ last.res = "none" /\ last.had = "remote")
+W_Paused == ~(IsSense(last) /\ Len(last.pauses) = 2 /\ last.pauses[1] > 0)
+W_NoPauseLongCycle == ~(IsSense(last) /\ Len(last.pauses) = 2 /\ last.pauses[1] = 0 /\ last.interval > 0)
 W_ExchangeNothing == ~(last.op = "exchange" /\ last.had = "none")
 W_ListenRaisedAfterCapture == ~(last.op = "listen" /\ last.res = "UnsupportedTargetError" /\ last.had = "remote")
 W_SenseRaisedAfterCapture == ~(IsSense(last) /\ last.res \in {"ValueError", "IOError", "UnsupportedTargetError"} /\ last.had = "local")
